@@ -59,7 +59,19 @@ class Builder:
         if style == "unique":
             return "%s%d" % (prefix, self.uid)
         pool = self.c.get("name_pool")
-        return "%s%s" % (self.r.choice(pool), self.uid if self.r.random() < 0.5 else "")
+        nm = "%s%s" % (self.r.choice(pool), self.uid if self.r.random() < 0.5 else "")
+        if prefix == "n":
+            import re
+            if re.search(r"\[\d+\]$", nm) or re.search(r"_\d+_$", nm):
+                nm += "x"  # stem[3] / stem_3_ spell "bit 3 of bus stem" in EDIF: not a name for a whole cable
+        if self.c.get("unique_names", True):
+            # siblings must be accepted by the naming rules (names unique as written; under the EDIF policy
+            # nothing else is demanded of names), so never hand out the same string twice
+            used = self.__dict__.setdefault("used_names", set())
+            if nm in used:
+                nm = "%s%d" % (nm, self.uid)
+            used.add(nm)
+        return nm
 
     def pp(self, base=None):
         """Optional data for a new element: an EDIF identifier and/or a user key (C13, C17)."""
